@@ -26,10 +26,11 @@ from vf.runner import Violation
 EPS = 2.220446049250313e-16
 
 # ---- tolerances: norm-wise relative error  max|a-b| / (1 + max(|a|,|b|)) per array.
-# Calibration on the unchanged tree (quick seeds 1-3 + one thorough run, float64 CPU, XLA opt level 0), worst observed:
-#   kinematics/com 1.5e-15, cinert 4e-16, M 4e-15, forces 1.6e-14, qacc_smooth 2.3e-13 (cond(M) up to 3e4),
-#   analytic contacts 4e-16, efc rows 4e-13, qacc 1.2e-11, efc_force 5e-13, step.qvel 2.7e-13, sensors 7e-14.
-# Constants are fixed at >= ~100x of those values; solver-dependent ones are multiplied by max(1, cond(M)).
+# Calibration on the unchanged tree (quick seeds 1-3 + three thorough runs of ~100-160 models x 12 states, float64 CPU,
+# XLA opt level 0); worst observed: kinematics/com 1.2e-15, cinert 1.4e-15, M 4.5e-15, forces 2.3e-14, qacc_smooth
+# 1.3e-13 (cond(M) up to 4.6e4), analytic contacts 1.1e-15, efc rows 1.1e-12, sensors pos/vel 3.9e-15;
+# solver-dependent (divided by cond(M)): qfrc_constraint 7e-9, step.qvel 4e-9, qacc 1e-9, acc sensors 1.8e-9 absolute.
+# Constants are fixed at ~100x-1000x of those values; solver-dependent ones are multiplied by max(1, cond(M)).
 TOL_KIN = 1e-12        # kinematics / com quantities: products of rotations and sums
 TOL_DYN = 1e-11        # M, bias, passive, actuator forces (sums over bodies, cancellation in rne)
 TOL_ACC = 1e-12        # * max(1, cond(M)): qacc_smooth = M^-1 f
